@@ -107,3 +107,26 @@ func VerifC16(entry string, n int) {
 	}
 	vfy.Cover("returned")
 }
+
+// VerifC16Huge runs one of the C15 stream generators with one Exp-Golomb element per path replaced
+// by a code with hm leading zero bits (whatever the element's legal range) and the stream cut
+// after it, and feeds the result to the real parser under the panic/step/allocation monitors.
+func VerifC16Huge(hm int, fn string, a, b, c, d, e, f, g, h int) {
+	c15Huge, c15HugeBools = hm%100, hm/100
+	switch fn {
+	case "VerifC15SPS":
+		VerifC15SPS(a, b)
+	case "VerifC15PPSSlice":
+		VerifC15PPSSlice(a, b, c != 0, d != 0)
+	case "VerifC15SPSExt":
+		VerifC15SPSExt(a, b)
+	case "VerifC15PPSExt":
+		VerifC15PPSExt(a, b)
+	case "VerifC15PBSlice":
+		VerifC15PBSlice(a, b, c)
+	default:
+		panic("harness: unknown generator " + fn)
+	}
+	c15Huge, c15HugeBools = 0, 0
+	vfy.Cover("returned")
+}
